@@ -11,7 +11,7 @@ import sys
 import z3
 from . import sym
 from .sym import SInt, ZInt, SBool, Unsupported
-from .sbytes import SBytes, SStr, SHash, FakeHashlib, fake_digest_ctor, bytes_of, DIGEST_SIZES, uf, _t8
+from .sbytes import SBytes, SStr, SHash, FakeHashlib, fake_digest_ctor, bytes_of, DIGEST_SIZES, uf, _t8, _named
 
 PRIM_CALLS = []
 
@@ -53,7 +53,7 @@ def prim(name, out_bytes, *args):
         out = z3.BitVec(fname, 8 * out_bytes)
     else:
         f = z3.Function(fname, *([t.sort() for t in terms] + [z3.BitVecSort(8 * out_bytes)]))
-        out = f(*terms)
+        out = _named(f(*terms))
     return bytes_of(out, out_bytes)
 
 
@@ -211,3 +211,37 @@ def class_prim_triples(base, pm=None):
             except TypeError:
                 continue
     return out
+
+
+def cone(path, roots, depth=2):
+    """defining equations of the named digest outputs that the root terms depend on, followed `depth` levels down, with the
+    no-collision facts for exactly those applications.  A subset of the path's facts: 'unsat' with it is 'unsat' with all."""
+    defs = {}
+    for n in path.notes:
+        if isinstance(n, tuple) and len(n) == 3 and n[0] == "def":
+            defs[n[1].get_id()] = (n[1], n[2])
+    out, apps = [], []
+    seen = set()
+    frontier = [t for t in roots if z3.is_expr(t)]
+    for level in range(depth + 1):
+        nxt = []
+        stack = list(frontier)
+        visited = set()
+        while stack:
+            t = stack.pop()
+            i = t.get_id()
+            if i in visited:
+                continue
+            visited.add(i)
+            if i in defs and i not in seen:
+                seen.add(i)
+                v, app = defs[i]
+                out.append(v == app)
+                apps.append(app)
+                nxt.append(app)
+            if z3.is_app(t):
+                stack.extend(t.children())
+        frontier = nxt
+        if not frontier:
+            break
+    return out + ideal_axioms(*apps)
